@@ -2,12 +2,21 @@
 (***************************************************************************)
 (* Direction B for C09: every record is one trajectory that was run        *)
 (* through the real boo_3d,                                                *)
-(*   [deg |-> l, H |-> cell (scaled ints), ppp |-> mask, nmax |-> Nmax,    *)
-(*    frames |-> << [pos, nl, w] >> (scaled integer positions, neighbour   *)
-(*    lists and integer weights exactly as parsed from the files the code  *)
-(*    read; w = << >> without a weight file),                              *)
+(*   [deg |-> l, H |-> cell of the first frame (scaled ints), ppp |-> mask, *)
+(*    nmax |-> Nmax,                                                       *)
+(*    frames |-> << [pos, nl, w, H, ord, word] >> (scaled integer          *)
+(*    positions, neighbour lists and integer weights exactly as parsed     *)
+(*    from the files the code read; w = << >> without a weight file; H =   *)
+(*    the cell of THAT frame - the tilts of a sheared run change from      *)
+(*    frame to frame; ord / word = the ids in the order of the lines of    *)
+(*    the neighbour / weight file),                                        *)
 (*    cn |-> per frame, per particle the coordination number the code      *)
-(*    reported (third column of the sij csv)]                              *)
+(*    reported (third column of the sij csv),                              *)
+(*    calls |-> the session: the method calls [m, cg, cj] made on the ONE  *)
+(*    boo_3d object, in the order they were made]                          *)
+(* A trajectory outside boo_3d's domain (edge lengths or particle number   *)
+(* change, a particle without neighbour, a line order that is not a        *)
+(* permutation) is flagged `outside` and never judged.                     *)
 (* The spec re-derives the bonds with Cell!MinImage semantics, decides the *)
 (* discrete part itself (coordination numbers after Nmax truncation; a     *)
 (* frame with an exact half-cell tie or a zero bond is flagged, never      *)
@@ -23,14 +32,17 @@ vars == <<l, bad>>
 
 Thresholds == << <<7, 10>>, <<1, 2>>, <<0, 1>>, <<0 - 1, 2>> >>
 
-FrameBad(rec, fr) == FrameHasTie(rec.H, rec.ppp, fr, rec.nmax) \/ FrameHasZeroBond(rec.H, rec.ppp, fr, rec.nmax)
-RecBad(rec) == \E f \in 1..Len(rec.frames) : FrameBad(rec, rec.frames[f])
+HF(rec, fr) == CellOf(rec.H, fr)
+FrameBad(rec, fr) == FrameHasTie(HF(rec, fr), rec.ppp, fr, rec.nmax) \/ FrameHasZeroBond(HF(rec, fr), rec.ppp, fr, rec.nmax)
+Outside(rec) == ~TrajectoryInDomain(rec.H, rec.frames, rec.nmax)
+RecBad(rec) == Outside(rec) \/ \E f \in 1..Len(rec.frames) : FrameBad(rec, rec.frames[f])
 
 Why(rec) ==
   IF \E f \in 1..Len(rec.frames) : \E i \in 1..Len(rec.frames[f].pos) :
         rec.cn[f][i] # Cn(rec.frames[f], i, rec.nmax)
   THEN "CoordinationAfterTruncation"
-  ELSE IF \E f \in 1..Len(rec.frames) : ~WeightsNormalised(rec.frames[f], rec.nmax) THEN "WeightsNormalised"
+  ELSE IF ~Outside(rec) /\ \E f \in 1..Len(rec.frames) : ~WeightsNormalised(rec.frames[f], rec.nmax) THEN "WeightsNormalised"
+  ELSE IF \E p \in 1..Len(rec.calls) : ~KnownCall(rec.calls[p], Len(Thresholds)) THEN "UnknownCall"
   ELSE ""
 
 RECURSIVE ConcatF(_, _)
@@ -38,14 +50,18 @@ ConcatF(F(_), n) == IF n = 0 THEN << >> ELSE ConcatF(F, n - 1) \o F(n)
 
 CaseOf(k, rec) ==
   LET nf == Len(rec.frames)
-      ww == rec.deg <= 6
+      \* w_l for the tabulated degrees and, on small trajectories, for l = 12 (469 triples per particle and frame)
+      ww == rec.deg <= 6 \/ (rec.deg = 12 /\ nf * Len(rec.frames[1].pos) <= 36)
   IN
-  [ kind |-> "trace", rec |-> k, l |-> rec.deg, bad |-> RecBad(rec), withw |-> ww,
+  [ kind |-> "trace", rec |-> k, l |-> rec.deg, bad |-> RecBad(rec), outside |-> Outside(rec), withw |-> ww,
+    varies |-> Varies(rec.H, rec.frames, rec.nmax),
+    \* what every call of the session is expected to return: a function of the call alone
+    session |-> [p \in 1..Len(rec.calls) |-> WithObs(rec.calls[p])],
     macros |-> MacroY(rec.deg) \o <<MacroP(rec.deg)>>,
     defs |-> IF RecBad(rec) THEN << >>
-             ELSE ConcatF(LAMBDA f : FrameDefs(rec.H, rec.ppp, rec.frames[f], f, rec.deg, rec.nmax, ww), nf),
+             ELSE ConcatF(LAMBDA f : FrameDefs(HF(rec, rec.frames[f]), rec.ppp, rec.frames[f], f, rec.deg, rec.nmax, ww), nf),
     exp  |-> IF RecBad(rec) THEN << >>
-             ELSE [f \in 1..nf |-> FrameExp(rec.H, rec.ppp, rec.frames[f], f, rec.deg, rec.nmax, ww, Thresholds)],
+             ELSE [f \in 1..nf |-> FrameExp(HF(rec, rec.frames[f]), rec.ppp, rec.frames[f], f, rec.deg, rec.nmax, ww, Thresholds)],
     compose |-> Compose(rec.deg) ]
 
 Init == l = 1 /\ bad = ""
